@@ -159,3 +159,76 @@ def ks_op(rng, n, p=0.3):
     if rng.random() < p:
         return f"ksdirect {rng.randrange(0, 3)} {n}"
     return f"ksblocks {n}"
+
+
+# ---- long inputs: one call of several hundred blocks (length counters crossing 2^8 / 2^9; thorough: 2^16) ----
+LONG_N = [255, 256, 257, 300, 511, 513]
+LONG_N_THOROUGH = [1023, 1025, 4097, 65537]
+
+
+def long_n(rng, thorough=False):
+    if thorough and rng.random() < 0.3:
+        return rng.choice(LONG_N_THOROUGH)
+    return rng.choice(LONG_N)
+
+
+def small_matrix(rng, mode, maxbs=8):
+    m = [x for x in matrix_for(mode) if x[0] <= maxbs] or matrix_for(mode)
+    m.sort()
+    return rng.choice(m[:6])
+
+
+def long_block_case(rng, mode, thorough=False):
+    """block family: a single many-block call (in place or buffer-to-buffer) of hundreds of blocks, then the state"""
+    bs, w = small_matrix(rng, mode)
+    mbs = mode_bs(mode, bs)
+    n = long_n(rng, thorough)
+    key, iv = rb(rng, 16), rb(rng, ivlen(mode, bs))
+    c = Case("block", mode, bs, w, key, iv, cls_long=f"{n}")
+    data = rb(rng, n * mbs)
+    if rng.random() < 0.5:
+        c.ops.append(f"blocks {hx(data)}")
+    else:
+        c.ops.append(f"blocksb {hx(data)} {hx(rb_nz(rng, len(data)))}")
+    c.ops.append("ivstate")
+    c.ops.append(f"block {hx(rb(rng, mbs))}")
+    return c
+
+
+def long_stream_case(rng, mode, thorough=False):
+    """stream family: one request of hundreds of blocks plus a partial block, started mid-block"""
+    bs, w = small_matrix(rng, mode, 16)
+    key = rb(rng, 16)
+    iv, cls = stream_iv(rng, mode, bs, key)
+    n = long_n(rng, False) if bs > 4 else long_n(rng, thorough and rng.random() < 0.3)
+    n = min(n, 4097)
+    c = Case("stream", mode, bs, w, key, iv, cls_iv=cls, cls_long=f"{n}")
+    c.ops.append(f"apply {hx(rb(rng, rng.randrange(0, bs)))}")
+    c.ops.append(f"apply {hx(rb(rng, n * bs + rng.randrange(0, bs)))}")
+    c.ops.append("corestate")
+    c.ops.append(f"apply {hx(rb(rng, bs + 1))}")
+    return c
+
+
+def long_core_case(rng, mode, thorough=False):
+    bs, w = small_matrix(rng, mode, 16)
+    key = rb(rng, 16)
+    iv, cls = stream_iv(rng, mode, bs, key)
+    n = min(long_n(rng, thorough), 4097)
+    c = Case("core", mode, bs, w, key, iv, cls_iv=cls, cls_long=f"{n}")
+    c.ops.append(f"applyblocks {hx(rb(rng, n * bs))}" if rng.random() < 0.5 else f"ksblocks {n}")
+    c.ops.append("ivstate")
+    c.ops.append("ksblock")
+    return c
+
+
+def long_buf_case(rng, mode, thorough=False):
+    """buffered CFB: a short piece (leaves the cursor mid-block), then one piece of hundreds of blocks plus a remainder"""
+    bs, w = small_matrix(rng, "cbc-enc")
+    key, iv = rb(rng, 16), rb(rng, bs)
+    n = long_n(rng, thorough)
+    c = Case("buf", mode, bs, w, key, iv, cls_long=f"{n}")
+    c.ops.append(f"data {hx(rb(rng, rng.randrange(0, bs)))}")
+    c.ops.append(f"data {hx(rb(rng, n * bs + rng.randrange(0, bs)))}")
+    c.ops.append(f"data {hx(rb(rng, bs + 1))}")
+    return c
